@@ -15,7 +15,7 @@ open D2V.Gen.Shape
 
 inductive Kind where
   | rect | realSquare | hexagon | diamond | cylinder | queue | package | page | step | parallelogram
-  | document | storedData | callout | person
+  | document | storedData | callout | person | c4person
 deriving Repr, BEq, DecidableEq
 
 /-- the `shape.*_TYPE` strings -/
@@ -35,6 +35,7 @@ def Kind.ofType (s : String) : Option Kind :=
   | "StoredData" => some .storedData
   | "Callout" => some .callout
   | "Person" => some .person
+  | "C4Person" => some .c4person
   | _ => none
 
 def ceilR (x : Rat) : Rat := (x.ceil : Rat)
@@ -80,6 +81,17 @@ def fit (k : Kind) (w h px py : Rat) : Rat × Rat :=
     let sh := tw * personShoulderWidthFactor / (1 - 2 * personShoulderWidthFactor)
     let p := limitAR (tw + 2 * sh) (h + py) personARLimit
     (ceilR p.1, ceilR p.2)
+  | .c4person =>
+    let cw := w + px
+    let ch := h + py
+    let tw := cw / (9 / 10)
+    let headRadius := tw * c4HeadRadiusFactor
+    let bodyTop := headRadius + headRadius * c4BodyTopFactor
+    let verticalPadding := tw * (6 / 100)
+    let th0 := ch + bodyTop + verticalPadding
+    let th := if th0 < tw * (95 / 100) then tw * (95 / 100) else th0
+    let p := limitAR tw th c4PersonARLimit
+    (ceilR p.1, ceilR p.2)
 
 /-- a box relative to the shape's top-left corner -/
 structure IBox where
@@ -115,6 +127,12 @@ def inner (k : Kind) (W H : Rat) : IBox :=
   | .person =>
     let sh := personShoulderWidthFactor * W
     ⟨sh, 0, W - sh * 2, H⟩
+  | .c4person =>
+    let headRadius := W * c4HeadRadiusFactor
+    let bodyTop := headRadius + headRadius * c4BodyTopFactor
+    let hp := W * (5 / 100)
+    let vp := H * (3 / 100)
+    ⟨hp, bodyTop + vp, W - hp * 2, H - bodyTop - vp * 2⟩
 
 /-- Spec: the inner box holds a `cw × ch` content and lies inside the `W × H` box (slack `t`) -/
 def innerOK (ib : IBox) (W H cw ch t : Rat) : Prop :=
